@@ -534,6 +534,14 @@ func genC04Hats(c *w1Case, r *simrt.Rng) {
 		}
 		axes = append(axes, a)
 	}
+	// a stick may trigger actions as well as a hat: one deflection is one press, however many positions beyond half
+	// travel it passes through (and it is over below 49 %)
+	stick := map[uint16]bool{}
+	if !mixed && r.Chance(0.3) {
+		sn := stickAxes[r.Intn(len(stickAxes))]
+		axes[0].Name, axes[0].Code, axes[0].Min, axes[0].Max = sn, absCode(sn), -32768, 32767
+		stick[axes[0].Code] = true
+	}
 	for mi := range c.d.Mappings {
 		c.d.Mappings[mi].Analog = []model.SubAnalog{{Sub: "", Axes: append([]model.AxisDesc(nil), axes...)}}
 	}
@@ -655,6 +663,13 @@ func genC04Hats(c *w1Case, r *simrt.Rng) {
 				}
 			}
 			g.nOct++
+			if stick[a.Code] && v != 0 {
+				// through some positions on that side: beyond half travel, or short of it (well outside the 49-50 % band)
+				v *= []int32{9000, 19000, 19661, 26000, 32767}[r.Intn(5)]
+				if v == -32767 && r.Chance(0.5) {
+					v = -32768
+				}
+			}
 			g.out = append(g.out, model.Event{Kind: "abs", Code: a.Code, Value: v})
 			pos[a.Code] = v
 		case mixed && r.Chance(0.5):
